@@ -21,7 +21,7 @@ import importlib.util
 import os
 import re
 
-PROPERTIES = ["C18"]
+PROPERTIES = ["C18"]  # (C13 reads add_resource through its own model; the tie is pinned in C18)
 
 _here = os.path.dirname(os.path.abspath(__file__))
 _spec = importlib.util.spec_from_file_location("c01_blocker_structure", os.path.join(_here, "c01_blocker_structure.py"))
@@ -40,6 +40,37 @@ RD_STMTS = [
     (r"fordepinresource\.dependencies\.iter\(\)\{self\.recursive_dependencies\(dep,prev_deps,filter_permission\)\?;\}", "D_recurse"),
     (r"Ok\(\(\)\)$", "D_ok"),
 ]
+
+
+AR_STMTS = [
+    (r"ifletResourceType::Mime\(content_type\)=&resource\.kind\{"
+     r"if!resource\.dependencies\.is_empty\(\)&&!content_type\.supports_dependencies\(\)\{returnErr\(AddResourceError::ContentTypeDoesNotSupportDependencies\);\}"
+     r"letdecoded=BASE64_STANDARD\.decode\(&resource\.content\)\?;"
+     r"ifcontent_type\.is_textual\(\)\{let_=String::from_utf8\(decoded\)\?;\}\}", "A_mime_checks"),
+    (r"foridentinstd::iter::once\(&resource\.name\)\.chain\(resource\.aliases\.iter\(\)\)\{"
+     r"ifself\.resources\.contains_key\(ident\)\|\|self\.aliases\.contains_key\(ident\)\{returnErr\(AddResourceError::NameAlreadyAdded\);\}\}", "A_reject_if_any_identifier_taken"),
+    (r"resource\.aliases\.iter\(\)\.for_each\(\|alias\|\{self\.aliases\.insert\(alias\.clone\(\),resource\.name\.clone\(\)\);\}\);", "A_insert_aliases"),
+    (r"self\.resources\.insert\(resource\.name\.clone\(\),resource\);", "A_insert_resource"),
+    (r"Ok\(\(\)\)$", "A_ok"),
+]
+
+
+def generate_add_resource(b, die):
+    t = norm(_bs.fn_body(b, r"pub fn add_resource\(&mut self, resource: Resource\)\s*->\s*Result<\(\), AddResourceError>\s*\{", die))
+    steps = []
+    while t:
+        for rx, name in AR_STMTS:
+            m = re.match(rx, t)
+            if m:
+                steps.append(name)
+                t = t[m.end():]
+                break
+        else:
+            die("add_resource: statement not recognised at %r" % t[:200])
+    return ["Module AddResGen.",
+            "Inductive astep := A_mime_checks | A_reject_if_any_identifier_taken | A_insert_aliases | A_insert_resource | A_ok.",
+            "Definition ar_steps : list astep := [%s]." % "; ".join(steps),
+            "End AddResGen."]
 
 
 def generate(src, die, coq_str):
@@ -89,4 +120,4 @@ def generate(src, die, coq_str):
             "Definition collected_compares : string := \"name\".",
             "Definition rd_steps : list dstep := [%s]." % "; ".join(steps),
             "Definition scriptlet_order : list gstep := [%s]." % "; ".join(order),
-            "End DepsGen."]
+            "End DepsGen."] + generate_add_resource(b, die)
